@@ -42,6 +42,10 @@ type vc06ConnTransport struct {
 	mu       sync.Mutex
 	connects []string // hex of the Covert of every object handed to Connect
 	fail     bool
+	onConn   func() // runs inside Connect: the name system moves on between admission and the dial
+	cmu      sync.Mutex
+	entered  int // Connect calls
+	finished int // Connect calls that failed + connections the station has closed again
 }
 
 func (*vc06ConnTransport) Name() string      { return "verif-connecting" }
@@ -63,12 +67,72 @@ func (t *vc06ConnTransport) Connect(ctx context.Context, reg transports.Registra
 	} else {
 		t.connects = append(t.connects, vc06Hex(fmt.Sprintf("<%T>", reg)))
 	}
+	if t.onConn != nil {
+		t.onConn()
+	}
+	t.cmu.Lock()
+	t.entered++
+	if t.fail {
+		t.finished++
+	}
+	t.cmu.Unlock()
 	if t.fail {
 		return nil, errors.New("scripted: client unreachable")
 	}
 	station, client := net.Pipe()
 	client.Close() // the client goes away at once; Proxy dials the covert before it notices
-	return station, nil
+	return &vc06Conn{Conn: station, t: t}, nil
+}
+
+// the connection handed to the station: when the station closes it, the hand-off has run to its end
+type vc06Conn struct {
+	net.Conn
+	t    *vc06ConnTransport
+	once sync.Once
+}
+
+func (c *vc06Conn) Close() error {
+	c.once.Do(func() {
+		c.t.cmu.Lock()
+		c.t.finished++
+		c.t.cmu.Unlock()
+	})
+	return c.Conn.Close()
+}
+
+func (t *vc06ConnTransport) counts() (int, int) {
+	t.cmu.Lock()
+	defer t.cmu.Unlock()
+	return t.entered, t.finished
+}
+
+// awaitStart waits (up to 5 s) until a hand-off that must come has reached Connect
+func (t *vc06ConnTransport) awaitStart(c0 int) {
+	for k := 0; k < 2500; k++ {
+		if e, _ := t.counts(); e > c0 {
+			return
+		}
+		time.Sleep(2 * time.Millisecond)
+	}
+}
+
+// quiesce waits until no hand-off is in flight and none has started for `quiet`
+func (t *vc06ConnTransport) quiesce(quiet time.Duration) bool {
+	deadline := time.Now().Add(20 * time.Second)
+	idleSince := time.Time{}
+	for time.Now().Before(deadline) {
+		if e, f := t.counts(); e == f {
+			if idleSince.IsZero() {
+				idleSince = time.Now()
+			} else if time.Since(idleSince) >= quiet {
+				return true
+			}
+		} else {
+			idleSince = time.Time{}
+		}
+		time.Sleep(2 * time.Millisecond)
+	}
+	return false
 }
 
 func (t *vc06ConnTransport) take() []string {
@@ -88,50 +152,14 @@ func (t *vc06ConnTransport) setFail(f bool) {
 	t.mu.Unlock()
 }
 
-// ConnectingTpStats that tells the driver when every hand-off has run to its end
-type vc06ConnStats struct {
-	mu            sync.Mutex
-	created, done int
-}
+// ConnectingTpStats: required by handleConnectingTpReg, not used by the driver
+type vc06ConnStats struct{}
 
-func (s *vc06ConnStats) AddCreatedConnecting(asn uint, cc string, tp string) {
-	s.mu.Lock()
-	s.created++
-	s.mu.Unlock()
-}
-func (s *vc06ConnStats) AddCreatedToSuccessfulConnecting(asn uint, cc string, tp string) {}
-func (s *vc06ConnStats) fin() {
-	s.mu.Lock()
-	s.done++
-	s.mu.Unlock()
-}
-func (s *vc06ConnStats) AddCreatedToTimeoutConnecting(asn uint, cc string, tp string)      { s.fin() }
-func (s *vc06ConnStats) AddSuccessfulToDiscardedConnecting(asn uint, cc string, tp string) { s.fin() }
-func (s *vc06ConnStats) AddOtherFailConnecting(asn uint, cc string, tp string)             { s.fin() }
-func (s *vc06ConnStats) idle() bool {
-	s.mu.Lock()
-	defer s.mu.Unlock()
-	return s.created == s.done
-}
-
-// quiesce waits until no hand-off is in flight and none has started for `quiet`
-func (s *vc06ConnStats) quiesce(quiet time.Duration) bool {
-	deadline := time.Now().Add(20 * time.Second)
-	idleSince := time.Time{}
-	for time.Now().Before(deadline) {
-		if s.idle() {
-			if idleSince.IsZero() {
-				idleSince = time.Now()
-			} else if time.Since(idleSince) >= quiet {
-				return true
-			}
-		} else {
-			idleSince = time.Time{}
-		}
-		time.Sleep(2 * time.Millisecond)
-	}
-	return false
-}
+func (*vc06ConnStats) AddCreatedConnecting(asn uint, cc string, tp string)               {}
+func (*vc06ConnStats) AddCreatedToSuccessfulConnecting(asn uint, cc string, tp string)   {}
+func (*vc06ConnStats) AddCreatedToTimeoutConnecting(asn uint, cc string, tp string)      {}
+func (*vc06ConnStats) AddSuccessfulToDiscardedConnecting(asn uint, cc string, tp string) {}
+func (*vc06ConnStats) AddOtherFailConnecting(asn uint, cc string, tp string)             {}
 
 // ---------------------------------------------------------------- cases
 
@@ -323,6 +351,13 @@ func (r *vc06Recorder) collect(due bool) []string {
 	return r.take()
 }
 
+// advance moves to the next resolver epoch without forgetting the questions seen so far
+func (s *vc06Stub) advance() {
+	s.mu.Lock()
+	s.epoch++
+	s.mu.Unlock()
+}
+
 func (s *vc06Stub) nQueries() int {
 	s.mu.Lock()
 	defer s.mu.Unlock()
@@ -373,7 +408,7 @@ func TestVerifC06Seq(t *testing.T) {
 		rm.LivenessTester = live
 		rm.registeredDecoys.registerForDetector = func(*DecoyRegistration) {}
 		rm.registeredDecoys.updateInDetector = func(*DecoyRegistration) {}
-		ct := &vc06ConnTransport{mockTransport: &mockTransport{}}
+		ct := &vc06ConnTransport{mockTransport: &mockTransport{}, onConn: stub.advance}
 		_ = rm.AddTransport(pb.TransportType_Min, &mockTransport{})
 		_ = rm.AddTransport(pb.TransportType_DTLS, ct)
 		stub.setScript(h.Script)
@@ -414,6 +449,7 @@ func TestVerifC06Seq(t *testing.T) {
 						return
 					}
 					qmark := 0
+					c0, _ := ct.counts()
 					for _, reg := range regs {
 						if reg == nil {
 							continue
@@ -427,7 +463,12 @@ func TestVerifC06Seq(t *testing.T) {
 						rm.ingestRegistration(reg)
 						qmark = stub.nQueries()
 					}
-					if !cstats.quiesce(12 * time.Millisecond) {
+					// a registration of the connecting transport that has just become valid is handed over by a goroutine:
+					// wait for it to start, so that a slow machine does not attribute it to the next step
+					if mid, _ := vc06SeqTracked(rm, probe); !r.Before.Tracked && mid.Valid && op.Kind == "conn" {
+						ct.awaitStart(c0)
+					}
+					if !ct.quiesce(12 * time.Millisecond) {
 						r.Stuck = true
 					}
 					r.After, _ = vc06SeqTracked(rm, probe)
@@ -470,7 +511,7 @@ func TestVerifC06Seq(t *testing.T) {
 						}
 					}
 					r.After, _ = vc06SeqTracked(rm, probe)
-					r.Dialed = rec.collect(false)
+					r.Dialed = rec.collect(len(r.Proxied) > 0 && rec.listens(r.Proxied[0]))
 					r.DialQ = stub.nQueries()
 
 				case "expire":
@@ -493,7 +534,7 @@ func TestVerifC06Seq(t *testing.T) {
 			}()
 		}
 		// stragglers: anything that is dialled after the last step belongs to this history
-		cstats.quiesce(30 * time.Millisecond)
+		ct.quiesce(30 * time.Millisecond)
 		if late := rec.collect(false); len(late) > 0 && len(out) > 0 {
 			out[len(out)-1].Dialed = append(out[len(out)-1].Dialed, late...)
 		}
